@@ -369,7 +369,137 @@ def execute(fam, T, items, flavour, scratch, dflt=None, chan="argv"):
     return obs, py, err
 
 
+def split_log(log, root):
+    """the part of a constructor log that built `root` (entries reachable through object references), renumbered"""
+    if not root:
+        return [], 0
+    seen: list = []
+
+    def refs(v, out):
+        if v.get("k") == "obj":
+            out.append(v["i"])
+        elif v.get("k") == "list":
+            for x in v["l"]:
+                refs(x, out)
+        elif v.get("k") == "dict":
+            for x in v["d"].values():
+                refs(x, out)
+
+    def visit(i):
+        if i in seen or not (1 <= i <= len(log)):
+            return
+        seen.append(i)
+        out: list = []
+        for x in log[i - 1]["kw"].values():
+            refs(x, out)
+        for j in out:
+            visit(j)
+
+    visit(root)
+    order = sorted(seen)
+    ren = {old: new + 1 for new, old in enumerate(order)}
+
+    def rn(v):
+        if v.get("k") == "obj":
+            return {"k": "obj", "i": ren.get(v["i"], 0)}
+        if v.get("k") == "list":
+            return {"k": "list", "l": [rn(x) for x in v["l"]]}
+        if v.get("k") == "dict":
+            return {"k": "dict", "d": {n: rn(x) for n, x in v["d"].items()}}
+        return v
+    return [{"c": log[i - 1]["c"], "kw": {n: rn(x) for n, x in log[i - 1]["kw"].items()}} for i in order], ren[root]
+
+
+def execute_pair(fam, T, items_a, items_b, flavour, scratch):
+    """TWO class-typed arguments in one parser, --x and --x_ema (the first name is a string prefix of the second): the i-th
+    sources of both cases arrive together in the i-th --cfg, so they are merged by merge_config; both results are observed"""
+    mod = load_family(fam, scratch)
+    modname = mod.__name__
+    n = max(len(items_a), len(items_b))
+    argv = []
+    for i in range(n):
+        data = {}
+        if i < len(items_a):
+            data["x"] = to_json(items_a[i]["v"], modname)
+        if i < len(items_b):
+            data["x_ema"] = to_json(items_b[i]["v"], modname)
+        text = json.dumps(data)
+        if flavour & 4:
+            path = os.path.join(scratch, f"pair_{os.getpid()}_{i}.json")
+            with open(path, "w") as f:
+                f.write(text)
+            argv += ["--cfg", path]
+        else:
+            argv.append("--cfg=" + text)
+    p = ArgumentParser(exit_on_error=False)
+    p.add_argument("--cfg", action=ActionConfigFile)
+    if flavour & 1:
+        p.add_subclass_arguments(getattr(mod, T), "x")
+        p.add_subclass_arguments(getattr(mod, T), "x_ema")
+    else:
+        p.add_argument("--x", type=getattr(mod, T))
+        p.add_argument("--x_ema", type=getattr(mod, T))
+    mod.LOG.clear()
+    blank = {"ok": False, "v": REJ, "inst": "skip", "log": [], "root": 0, "rtype": ""}
+    oa, ob = dict(blank), dict(blank)
+    buf = io.StringIO()
+    py = (f"# module {modname}:\n{family_source(fam)}\n# p = ArgumentParser(exit_on_error=False); p.add_argument('--cfg', action=ActionConfigFile); "
+          f"two arguments of type {T}: --x and --x_ema ({'add_subclass_arguments' if flavour & 1 else 'add_argument(type=)'})\n"
+          f"# cfg = p.parse_args({argv!r}); init = p.instantiate_classes(cfg)")
+    try:
+        with redirect_stderr(buf), redirect_stdout(buf):
+            cfg = p.parse_args(list(argv))
+    except ArgumentError as ex:
+        return oa, ob, py, str(ex)[:400]
+    except Exception as ex:
+        for o in (oa, ob):
+            o["ok"], o["v"] = True, {"k": "other", "s": "parse raised " + type(ex).__name__}
+        return oa, ob, py, type(ex).__name__ + ": " + str(ex)[:400]
+    for o, key in ((oa, "x"), (ob, "x_ema")):
+        o["ok"], o["v"] = True, alpha(cfg.get(key), modname)
+    err = ""
+    if oa["v"]["k"] != "spec" or ob["v"]["k"] != "spec":
+        return oa, ob, py, err
+    try:
+        with redirect_stderr(buf), redirect_stdout(buf):
+            init = p.instantiate_classes(cfg)
+        full = [{"c": c, "kw": {k: alpha_obj(v) for k, v in kw.items()}} for c, kw in mod.LOG]
+        used = 0
+        for o, key in ((oa, "x"), (ob, "x_ema")):
+            res = init.get(key)
+            o["inst"] = "ok"
+            o["log"], o["root"] = split_log(full, getattr(res, "_verif_idx", 0))
+            o["rtype"] = type(res).__name__
+            used += len(o["log"])
+        if used != len(full):       # constructor calls that belong to neither result: make the log check fail
+            ob["log"] = ob["log"] + [{"c": "?extra-constructor-calls", "kw": {}}]
+    except Exception as ex:
+        oa["inst"] = ob["inst"] = "raise"
+        err += "instantiate_classes: " + type(ex).__name__ + ": " + str(ex)[:300]
+    return oa, ob, py, err
+
+
 _G: dict = {}
+
+
+def _work_pair(job):
+    idx, fi, T, ia, ib, flavour = job
+    try:
+        oa, ob, py, err = execute_pair(_G["fams"][fi], T, ia, ib, flavour, _G["scratch"])
+        return idx, oa, ob, py, err
+    except Exception as ex:
+        import traceback
+
+        return idx, {"machinery": type(ex).__name__ + ": " + str(ex)[:300] + traceback.format_exc()[-600:]}, {}, "", ""
+
+
+def run_pairs(jobs, fams, scratch, procs=16):
+    _G["fams"], _G["scratch"] = fams, scratch
+    ctx = mp.get_context("fork")
+    with ctx.Pool(procs) as pool:
+        res = pool.map(_work_pair, jobs, chunksize=16)
+    res.sort(key=lambda r: r[0])
+    return res
 
 
 def _work(job):
@@ -466,6 +596,13 @@ def rnd_family(rnd, salt):
             ps.append(P_("n", T_("int"), I_(0)))
         cls[name] = {"parent": "", "abs": False, "kw": False, "params": ps}
         owners.append(name)
+    pair = "Pair" + salt        # two class-typed parameters, the first name a string prefix of the second
+    pnames = rnd.choice([("p", "p2"), ("model", "model_ema"), ("net", "net_b")])
+    cls[pair] = {"parent": "", "abs": False, "kw": False,
+                 "params": [P_(pnames[0], T_("cls", base)), P_(pnames[1], T_(rnd.choice(["cls", "opt"]), base), None)]}
+    if cls[pair]["params"][1]["t"]["k"] == "opt":
+        cls[pair]["params"][1] = P_(pnames[1], T_("opt", base), {"k": "null"})
+    owners.append(pair)
     top = "Top" + salt
     cls[top] = {"parent": "", "abs": False, "kw": False, "params": [P_("own", T_("cls", owners[0])), P_("m", T_("int"), I_(1))]}
     fn = {"make" + salt: {"ret": rnd.choice([base] + subs), "params": [P_(pn[0], T_("int"), I_(7))]},
@@ -705,7 +842,7 @@ def main(argv):
         for fi in range(nfam):
             fam = rnd_family(rnd, f"R{fi}")
             fams.append(fam)
-            decls = [c for c in fam["cls"] if c.startswith(("Base", "Own", "Top", "Abs"))]
+            decls = [c for c in fam["cls"] if c.startswith(("Base", "Own", "Top", "Abs", "Pair", "Pair"))]
             for _ in range(per_fam):
                 T = rnd.choice(decls)
                 items = rnd_items(rnd, fam, T)
@@ -720,6 +857,39 @@ def main(argv):
                 machinery_failure(PID, f"gamma/alpha failed on work item {i} ({w['origin']}): {obs['machinery']}\n{json.dumps(w['items'])[:1500]}")
             w["obs"], w["py"], w["err"], w["flavour"] = obs, py, err, jobs[i][4]
         cases = replay_cases
+        # ---- two class-typed arguments in ONE parser, --x / --x_ema: the sources of two emitted cases of declared class Base
+        #      arrive pairwise in the same --cfg (merged by merge_config); each result must be what its own case says
+        def cfg_only(c):
+            return (c["T"] == "Base" and c["chan"] == "argv" and c["dflt"].get("k") == "none" and 1 <= len(c["items"]) <= 2
+                    and all(it["k"] in ("whole", "cfg") for it in c["items"]))
+
+        def as_cfg(items):
+            return [{"k": "cfg", "v": it["v"]} for it in items]
+
+        cands = [c for c in replay_cases if cfg_only(c)]
+        good = [c for c in cands if c["alg"]["ok"] and c["ref"] == c["code"]]
+        # companions for --x: accepted two-source cases whose sources are class specs both times (several class pairs)
+        comp_all = [c for c in good if len(c["items"]) == 2 and all(it["v"]["k"] == "dict" and "class_path" in it["v"]["d"] for it in c["items"])]
+        comp = comp_all[:: max(1, len(comp_all) // 12)][:12]
+        second = [c for j, c in enumerate(cands) if c["alg"]["ok"] or j % 6 == 0]     # every accepted case, a stride of the rejected ones
+        if tier == "quick":
+            second = [c for j, c in enumerate(second) if len(c["items"]) == 2 or j % 3 == 0]
+        pjobs, pmeta = [], []
+        for j, cb in enumerate(second):
+            if not comp:
+                break
+            ca = comp[j % len(comp)]
+            pjobs.append((len(pjobs), 0, "Base", ca["items"], cb["items"], flavour_of(j, common.seed() + 5)))
+            pmeta.append((ca, cb))
+        pres = run_pairs(pjobs, fams, scratch) if pjobs else []
+        for (j, oa, ob, py, err), (ca, cb) in zip(pres, pmeta):
+            if "machinery" in oa:
+                machinery_failure(PID, f"gamma/alpha failed on paired run {j}: {oa['machinery']}")
+            base = {"f": 0, "T": "Base", "pair": -1, "mc": None, "dflt": NONE, "chan": "argv", "py": py, "err": err, "flavour": pjobs[j][5]}
+            work.append({**base, "items": as_cfg(cb["items"]), "origin": "paired:x_ema", "obs": ob})
+            if cb["alg"]["ok"] and cb["ref"] == cb["code"]:      # --x can only be judged when its sibling is expected to parse
+                work.append({**base, "items": as_cfg(ca["items"]), "origin": "paired:x", "obs": oa})
+        rep.extra["paired_two_argument_runs"] = len(pjobs)
         rep.extra["replayed_cases"] = len(cases)
         rep.extra["explicit_form_replays"] = sum(1 for w in work if w["origin"] == "explicit")
         rep.extra["random_families"] = nfam
